@@ -2,6 +2,7 @@ import Lean.Data.Json
 import GristModel
 import Driver.Treeview
 import Driver.Engine
+import Driver.CsvPost
 import Driver.Relabel
 import Driver.Textbuilder
 import Driver.JsonImport
@@ -24,6 +25,7 @@ def handleStateless (m : String) (j : Json) : Except String Json :=
   | "jsonimport" => Grist.Driver.JsonImport.handleJsonImport j
   | "textbuilder" => handleTextbuilder j
   | "relabel" => Relabel.handleRelabel j
+  | "csvpost" => handleCsvPost j
   | _ => throw s!"unknown model {m}"
 
 structure AllState where
